@@ -5,6 +5,7 @@ CONSTANTS
   Kind <- K_empty
   HoldLock = FALSE
   OneShot = FALSE
+  Guarded = TRUE
   Spawned = 3
 INVARIANT Safety
 PROPERTIES EventuallyAllDone
